@@ -76,6 +76,12 @@ def _case_ab(desc):
     case, snaps = _sim.build(d)
     case["strategies"][0]["name"] = "A"
     case["strategies"][1]["name"] = "B"
+    if desc["idx"] % 3 == 2:
+        # not sharing clients: B trades through a second client
+        case["clients"] = [{"username": "sim0"}, {"username": "sim1"}]
+        for a in case["strategies"][1]["actions"]:
+            if a["op"] == "place":
+                a["client"] = 1
     if desc.get("directed"):
         # A rests an order that is still live at closure; B subscribes with different listener_kwargs
         from .. import marketgen as G
